@@ -30,16 +30,16 @@ func (t Ty) String() string {
 }
 
 type Expr struct {
-	K    string  `json:"k"` // int float str bool null var bin un arr obj field index call match
-	I    int64   `json:"i,omitempty"`
-	F    float64 `json:"f,omitempty"`
-	S    string  `json:"s,omitempty"` // string literal / variable / field / function name
-	B    bool    `json:"b,omitempty"`
-	Op   string  `json:"op,omitempty"`
-	A    []*Expr `json:"a,omitempty"`
-	Keys []string `json:"keys,omitempty"`
-	Arms []MatchArm `json:"arms,omitempty"`
-	Paren int `json:"-"` // redundant parentheses to print
+	K     string     `json:"k"` // int float str bool null var bin un arr obj field index call match
+	I     int64      `json:"i,omitempty"`
+	F     float64    `json:"f,omitempty"`
+	S     string     `json:"s,omitempty"` // string literal / variable / field / function name
+	B     bool       `json:"b,omitempty"`
+	Op    string     `json:"op,omitempty"`
+	A     []*Expr    `json:"a,omitempty"`
+	Keys  []string   `json:"keys,omitempty"`
+	Arms  []MatchArm `json:"arms,omitempty"`
+	Paren int        `json:"-"` // redundant parentheses to print
 }
 
 type MatchArm struct {
@@ -90,38 +90,38 @@ type Prog struct {
 // Features switches constructs on and off. The zero value is the conservative core that
 // both engines implement; flags add constructs.
 type Features struct {
-	Floats        bool
-	Strings       bool
-	Arrays        bool
-	Objects       bool
-	While         bool
-	For           bool
-	Switch        bool
-	Match         bool
-	BreakContinue bool
-	StatusReturn  bool
-	Guards        bool
-	UserFuncs     bool
-	BuiltinsCore  bool // builtins both engines register
-	BuiltinsInterp bool // builtins only the interpreter has
+	Floats          bool
+	Strings         bool
+	Arrays          bool
+	Objects         bool
+	While           bool
+	For             bool
+	Switch          bool
+	Match           bool
+	BreakContinue   bool
+	StatusReturn    bool
+	Guards          bool
+	UserFuncs       bool
+	BuiltinsCore    bool // builtins both engines register
+	BuiltinsInterp  bool // builtins only the interpreter has
 	LogicRhsMayFail bool // && / || whose right operand can fail (needs short circuit)
-	EqIntFloat    bool
-	StrOrder      bool
-	IllTyped      int // percent of expressions generated ill-typed on purpose
-	DivZero       bool
-	IndexOOR      bool
-	LoopVarShadow bool
+	EqIntFloat      bool
+	StrOrder        bool
+	IllTyped        int // percent of expressions generated ill-typed on purpose
+	DivZero         bool
+	IndexOOR        bool
+	LoopVarShadow   bool
 	// NoMatchBindShadow keeps the variable of a binding match arm fresh (C02: the VM's flat
 	// locals let it overwrite an outer variable of the same name — recorded finding)
 	NoMatchBindShadow bool
-	FieldAbsent   bool
-	Mod           bool
-	NestedReturn  bool
-	DeclInBranch  bool
-	NoAssign      bool // no reassignment statements (besides while counters)
-	NoLitIdentity bool // no 0/1/2/true/false literal as a direct operand of a binary operator
-	NoSelfOp      bool // no binary operator with two identical operands
-	FreeVars      bool // free variables fi ff fs fb fa fo (bound by the caller at run time)
+	FieldAbsent       bool
+	Mod               bool
+	NestedReturn      bool
+	DeclInBranch      bool
+	NoAssign          bool // no reassignment statements (besides while counters)
+	NoLitIdentity     bool // no 0/1/2/true/false literal as a direct operand of a binary operator
+	NoSelfOp          bool // no binary operator with two identical operands
+	FreeVars          bool // free variables fi ff fs fb fa fo (bound by the caller at run time)
 }
 
 func FullInterp() Features {
@@ -131,22 +131,23 @@ func FullInterp() Features {
 }
 
 type G struct {
-	R     *rand.Rand
-	F     Features
-	scope []map[string]Ty
-	nvar  int
-	funcs []*Func
-	inLoop int
-	inFunc *Func
-	budget int
-	noIll  int
-	arrLen map[string]int // statically known length of array variables (-1 unknown)
+	R        *rand.Rand
+	F        Features
+	scope    []map[string]Ty
+	nvar     int
+	funcs    []*Func
+	inLoop   int
+	inFunc   *Func
+	budget   int
+	noIll    int
+	typedTop bool
+	arrLen   map[string]int // statically known length of array variables (-1 unknown)
 }
 
 func New(r *rand.Rand, f Features) *G { return &G{R: r, F: f, arrLen: map[string]int{}} }
 
-func (g *G) push()  { g.scope = append(g.scope, map[string]Ty{}) }
-func (g *G) pop()   { g.scope = g.scope[:len(g.scope)-1] }
+func (g *G) push() { g.scope = append(g.scope, map[string]Ty{}) }
+func (g *G) pop()  { g.scope = g.scope[:len(g.scope)-1] }
 func (g *G) fresh(prefix string) string {
 	g.nvar++
 	return fmt.Sprintf("%s%d", prefix, g.nvar)
@@ -363,10 +364,21 @@ func constKind(e *Expr) string {
 
 func (g *G) expr(t Ty, depth int) *Expr {
 	g.budget--
+	if g.typedTop {
+		// the caller needs this node itself to have type t (its value flows on unchecked,
+		// e.g. out of a match arm); deeper nodes may still be ill-typed and fail
+		g.typedTop = false
+		return g.expr2(t, depth)
+	}
 	if g.F.IllTyped > 0 && g.noIll == 0 && g.R.Intn(100) < g.F.IllTyped {
 		// deliberately produce another type here
 		t2 := g.pickTy()
-		if t2 != t {
+		// int <-> float is the one substitution that does not fail but silently changes the
+		// numeric kind of everything computed from it (a variable declared int then holds a
+		// float). While int == float is quarantined (C02), that would smuggle the quarantined
+		// comparison back in through `==` on such variables and through switch / match arms.
+		numericSwap := (t == TInt && t2 == TFloat) || (t == TFloat && t2 == TInt)
+		if t2 != t && !(numericSwap && !g.F.EqIntFloat) {
 			return g.expr2(t2, depth-1)
 		}
 	}
@@ -647,6 +659,7 @@ func (g *G) matchExpr(t Ty, depth int) *Expr {
 		} else {
 			l = g.strLit()
 		}
+		g.typedTop = true
 		m.Arms = append(m.Arms, MatchArm{Pat: "lit", Lit: l, Body: g.Expr(t, depth-1)})
 	}
 	if scrT == TInt && g.R.Intn(2) == 0 {
@@ -657,10 +670,12 @@ func (g *G) matchExpr(t Ty, depth int) *Expr {
 		g.push()
 		g.declare(b, TInt)
 		guard := &Expr{K: "bin", Op: []string{">", "<", ">="}[g.R.Intn(3)], A: []*Expr{{K: "var", S: b}, {K: "int", I: int64(g.R.Intn(8))}}}
+		g.typedTop = true
 		body := g.Expr(t, depth-1)
 		g.pop()
 		m.Arms = append(m.Arms, MatchArm{Pat: "bind", Bind: b, Guard: guard, Body: body})
 	}
+	g.typedTop = true
 	m.Arms = append(m.Arms, MatchArm{Pat: "wild", Body: g.Expr(t, depth-1)})
 	return m
 }
